@@ -52,7 +52,7 @@ var (
 
 var c18Addrs = [2]string{"127.0.0.5:0", "127.0.0.6:0"}
 
-var c18URIs = []string{"/plain", "/with%20space", "/q?a=1&b=2", "/q?a=1%26b=2", "/plus+sign?x=a+b", "/uni/%E2%9C%93?k=%C3%A9", "/pct%25", "/q?b=2&a=1", "/hash%23frag", "/semi;colon?x=y;z", "/eq=sign?=", "/q?a=1&b=2&"}
+var c18URIs = []string{"/long?q=" + strings.Repeat("0123456789abcdef", 100), "/long?q=" + strings.Repeat("0123456789abcdef", 100) + "&x=1", "/plain", "/with%20space", "/q?a=1&b=2", "/q?a=1%26b=2", "/plus+sign?x=a+b", "/uni/%E2%9C%93?k=%C3%A9", "/pct%25", "/q?b=2&a=1", "/hash%23frag", "/semi;colon?x=y;z", "/eq=sign?=", "/q?a=1&b=2&"}
 
 func genC18e2e(t *rapid.T) c18Scenario {
 	sc := c18Scenario{Store: rapid.Bool().Draw(t, "store")}
